@@ -5,6 +5,7 @@ import (
 	"encoding/hex"
 	"encoding/json"
 	"fmt"
+	"time"
 
 	"github.com/jwhited/corebgp"
 
@@ -26,6 +27,9 @@ type c14Case struct {
 	RouterID uint32   `json:"router_id"`
 	Inbound  bool     `json:"inbound"`
 	Caps     []c14Cap `json:"plugin_caps"`
+	// Prev >= 0: the judged OPEN is the one of a SECOND connection; on the first one the remote
+	// negotiated with hold time Prev and then ended the session with a Cease.
+	Prev int `json:"previous_session_remote_hold"`
 }
 
 func c14Run(cs c14Case, trace bool) (rule, msg string, representable bool, rep map[string]any) {
@@ -53,11 +57,26 @@ func c14Run(cs c14Case, trace bool) (rule, msg string, representable bool, rep m
 	var first *wire.Msg
 	var firstErr error
 	var rem *world.Remote
+	second := false
 	s := &Sess{LocalAS: cs.LocalAS, RemoteAS: 65002, RouterID: cs.RouterID, Hold: cs.Hold, Inbound: cs.Inbound,
+		Reconnect: cs.Prev >= 0, Horizon: 20 * time.Second,
 		Plugin: func(w *world.World) *world.Plugin {
 			return &world.Plugin{W: w, Peer: "P1", NoYield: true, Caps: caps}
 		},
 		Script: func(w *world.World, r *world.Remote) {
+			if cs.Prev >= 0 && !second {
+				second = true
+				if _, ok := r.Expect(wire.TypeOpen); ok {
+					r.Send(wire.Open(65002, uint16(cs.Prev), 0x0a000002))
+					if _, ok := r.Expect(wire.TypeKeepalive); ok {
+						r.Send(wire.Keepalive())
+						r.Send(wire.Notification(6, 4, nil))
+					}
+				}
+				r.Deadline(2 * time.Second)
+				r.Drain()
+				return
+			}
 			rem = r
 			m, err := r.ReadMsg()
 			if err == nil {
@@ -224,12 +243,22 @@ func c14Check(c *harness.Ctx) {
 		}
 		return true
 	}
+	// the OPEN of a second connection after a session that negotiated another hold time
+	for _, h := range []int{0, 9, 90, 65535} {
+		for _, prev := range []int{0, 3, 30} {
+			for _, inbound := range []bool{true, false} {
+				if !run(c14Case{LocalAS: 65001, Hold: h, RouterID: 0x0a000001, Inbound: inbound, Prev: prev}) {
+					return
+				}
+			}
+		}
+	}
 	// full configuration product x small capability set
 	for _, as := range ass {
 		for _, h := range holds {
 			for _, rid := range rids {
 				for li, l := range small {
-					if !run(c14Case{LocalAS: as, Hold: h, RouterID: rid, Inbound: li%2 == 0, Caps: l}) {
+					if !run(c14Case{LocalAS: as, Hold: h, RouterID: rid, Inbound: li%2 == 0, Caps: l, Prev: -1}) {
 						return
 					}
 				}
@@ -243,7 +272,7 @@ func c14Check(c *harness.Ctx) {
 		}
 		for _, l := range lists {
 			for _, inbound := range []bool{true, false} {
-				if !run(c14Case{LocalAS: cfg[0], Hold: int(cfg[1]), RouterID: cfg[2], Inbound: inbound, Caps: l}) {
+				if !run(c14Case{LocalAS: cfg[0], Hold: int(cfg[1]), RouterID: cfg[2], Inbound: inbound, Caps: l, Prev: -1}) {
 					return
 				}
 			}
